@@ -960,6 +960,8 @@ def evalf(p, env: dict, ufs: dict | None = None, _memo=None):
                 r = ep(at.args[1]) if eb(at.args[0]) else ep(at.args[2])
             elif at.kind == "uf":
                 f = ufs.get(at.args[0])
+                if f is None and at.args[0] == "trunc":
+                    f = math.trunc          # the store-into-an-integer-array function has one meaning
                 if f is None:
                     raise EvalError(f"no numeric model for {at.args[0]}")
                 r = float(f(*[ep(a) for a in at.args[1:]]))
